@@ -70,10 +70,16 @@ def rtguards(ck):
         else:
             bad = head
         key = re.sub(r"[0-9]+", "N", bad)[:60]
-        if key in reported:
+        fid = None
+        for k in ck.known:
+            mt = k.get("match", {})
+            if mt.get("kind") == "rtguard" and re.search(mt.get("what_regex", "$^"), bad) and re.search(mt.get("probe_regex", ""), tag):
+                fid = k["id"]
+        if fid is None and key in reported:
             continue
-        reported.add(key)
-        ck.violation({"kind": "msl-runtime-array-guard", "probe": tag, "what": bad, "wgsl": clike.unq(s[1:-1]), "emitted": clike.unq(tx[1:-1])[:5000],
+        if fid is None:
+            reported.add(key)
+        ck.violation({"kind": "msl-runtime-array-guard", "finding": fid, "probe": tag, "what": bad, "wgsl": clike.unq(s[1:-1]), "emitted": clike.unq(tx[1:-1])[:5000],
                       "how": "the bound the MSL writer computes for a run-time-sized array does not satisfy the hypotheses under which every "
                              "admitted index stays inside the binding (msl_runtime_elem_in_buffer): with a 64-byte binding an index past the "
                              "last whole element is admitted"}, found_input=True)
